@@ -102,18 +102,78 @@ fn ew2_round<N: Elem>(pool: bool, op: &str, s1: &[usize], e1: &[i128], s2: &[usi
     Some(format!("{}|tbl({})", res_arr(&r), tbl.join(";")))
 }
 
-/// result + scalar table obtained from the same operation on one-element arrays
+
+/// Independent references for the scalar functions (std's f64 functions, called here directly and not through the
+/// library under test).  `None`: no reference is defined for that operation.
+fn ref1(op: &str, x: f64) -> Option<f64> {
+    Some(match op {
+        "reciprocal" => 1.0 / x, "positive" => x, "negative" => -x,
+        "exp" => x.exp(), "exp2" => x.exp2(), "exp_m1" => x.exp_m1(), "log" => x.ln(), "log10" => x.log10(), "log2" => x.log2(),
+        "log_1p" => x.ln_1p(), "acosh" => x.acosh(), "asinh" => x.asinh(), "atanh" => x.atanh(),
+        "cosh" => x.cosh(), "sinh" => x.sinh(), "tanh" => x.tanh(),
+        "abs" | "absolute" | "fabs" => x.abs(), "cbrt" => x.cbrt(), "sqrt" => x.sqrt(), "square" => x * x,
+        "ceil" => x.ceil(), "floor" => x.floor(), "trunc" | "fix" => x.trunc(),
+        // nearest integer; which way an exact tie goes is not stated by the library: ties are not judged
+        "rint" => if (x - x.trunc()).abs() == 0.5 { return None } else { x.round() },
+        "acos" => x.acos(), "asin" => x.asin(), "atan" => x.atan(), "cos" => x.cos(), "sin" => x.sin(), "tan" => x.tan(),
+        "deg2rad" | "radians" => x.to_radians(), "degrees" | "rad2deg" => x.to_degrees(),
+        "sinc" => if x == 0.0 { 1.0 } else { let p = std::f64::consts::PI * x; p.sin() / p },
+        "signbit" => if x.is_sign_negative() { 1.0 } else { 0.0 },
+        _ => return None,
+    })
+}
+fn ref2(op: &str, x: f64, y: f64, single: bool) -> Option<f64> {
+    // the arithmetic family is evaluated in double precision and converted back to the element type
+    let back = |v: f64| if single { v as f32 as f64 } else { v };
+    Some(match op {
+        "add" => x + y, "subtract" => x - y, "multiply" => x * y, "divide" | "true_divide" => x / y,
+        "floor_divide" => back(x / y).floor(),
+        // the library's definitions: power raises to the integer part of the exponent (float_power takes a float
+        // exponent), fmod is the floored modulo, remainder / mod keep the sign of the dividend
+        "power" => x.powi(y as i32), "float_power" => x.powf(y),
+        "fmod" => x - (x / y).floor() * y, "remainder" | "mod" => x % y,
+        "atan2" => x.atan2(y), "hypot" => x.hypot(y),
+        "maximum" => if x.is_nan() || y.is_nan() { f64::NAN } else { x.max(y) },
+        "minimum" => if x.is_nan() || y.is_nan() { f64::NAN } else { x.min(y) },
+        "fmax" => x.max(y), "fmin" => x.min(y),
+        // the step function of NaN is not stated
+        "heaviside" => if x.is_nan() { return None } else if x < 0.0 { 0.0 } else if x == 0.0 { y } else { 1.0 },
+        "copysign" => x.copysign(y),
+        // beyond the range of exp the plain formula overflows: not judged
+        "log_add_exp" => if x.is_nan() || y.is_nan() { f64::NAN } else if x.max(y) > 700.0 { return None } else { (x.exp() + y.exp()).ln() },
+        // log_add_exp2: see the known finding F28 (judged separately against its documented definition)
+        _ => return None,
+    })
+}
+/// the magnitude a rounding error is measured against: the result, or the operands where the operation cancels
+fn scale2(op: &str, x: f64, y: f64, v: Option<f64>) -> f64 {
+    let r = v.map_or(0.0, f64::abs);
+    match op { "add" | "subtract" => x.abs() + y.abs(), "fmod" | "remainder" | "mod" => x.abs().max(r), _ => r }
+}
+fn ref_tag<N>() -> &'static str { if std::any::type_name::<N>() == "f32" { "ref32" } else { "ref" } }
+fn is_float<N>() -> bool { matches!(std::any::type_name::<N>(), "f64" | "f32") }
+fn fref(v: Option<f64>) -> String {
+    match v { None => "?".into(), Some(v) if v.is_nan() => "nan".into(), Some(v) => format!("f{:016x}", v.to_bits()) }
+}
+
+/// result + scalar table obtained from the same operation on one-element arrays + reference table (float types)
 fn ew2<N: Elem>(pool: bool, op: &str, args: &[Arg]) -> Option<String> {
     let (s1, e1, s2, e2) = match args { [Arg::A(s1, e1), Arg::A(s2, e2), ..] => (s1, e1, s2, e2), _ => return None };
     if op == "round" || op == "around" { return ew2_round::<N>(pool, op, s1, e1, s2, e2) }
     let (a, b) = (mkn::<N>(pool, s1, e1)?, mkn::<N>(pool, s2, e2)?);
     let r = call2(op, &a, &b)?;
     let mut tbl = vec![];
+    let mut rf = vec![];
     for &x in &distinct(e1) { for &y in &distinct(e2) {
         let v = single_val(call2(op, &Array::single(N::conv(pool, x)).unwrap(), &Array::single(N::conv(pool, y)).unwrap())?);
         tbl.push(format!("{x}/{y}={v}"));
+        if is_float::<N>() {
+            let (xf, yf) = (N::conv(pool, x).to_f64(), N::conv(pool, y).to_f64());
+            let v = ref2(op, xf, yf, std::any::type_name::<N>() == "f32");
+            rf.push(format!("{x}/{y}={}~{}", fref(v), fref(Some(scale2(op, xf, yf, v)))));
+        }
     } }
-    Some(format!("{}|tbl({})", res_arr(&r), tbl.join(";")))
+    Some(format!("{}|tbl({})|{}({})", res_arr(&r), tbl.join(";"), ref_tag::<N>(), rf.join(";")))
 }
 
 fn ew1<N: SignBit>(pool: bool, op: &str, args: &[Arg]) -> Option<String> {
@@ -122,11 +182,13 @@ fn ew1<N: SignBit>(pool: bool, op: &str, args: &[Arg]) -> Option<String> {
     if op == "signbit" { return signbit_of(pool, &a, e1) }
     let r = call1(op, &a)?;
     let mut tbl = vec![];
+    let mut rf = vec![];
     for &x in &distinct(e1) {
         let v = single_val(call1(op, &Array::single(N::conv(pool, x)).unwrap())?);
         tbl.push(format!("{x}={v}"));
+        if is_float::<N>() { rf.push(format!("{x}={}", fref(ref1(op, N::conv(pool, x).to_f64())))); }
     }
-    Some(format!("{}|tbl({})", res_arr(&r), tbl.join(";")))
+    Some(format!("{}|tbl({})|{}({})", res_arr(&r), tbl.join(";"), ref_tag::<N>(), rf.join(";")))
 }
 
 /// signbit exists for the floating types only
@@ -138,13 +200,15 @@ impl SignBit for f32 { fn signbit_arr(a: &Array<Self>) -> Option<Result<Array<bo
 fn signbit_of<N: SignBit>(pool: bool, a: &Array<N>, e1: &[i128]) -> Option<String> {
     let r = N::signbit_arr(a)?;
     let mut tbl = vec![];
+    let mut rf = vec![];
     for &x in &distinct(e1) {
         let v = match N::signbit_arr(&Array::single(N::conv(pool, x)).unwrap())? {
             Ok(b) => b.get_elements().ok().and_then(|v| v.first().map(|t| if *t { "1" } else { "0" }.to_string())).unwrap_or("?".into()),
             Err(_) => "E".into() };
         tbl.push(format!("{x}={v}"));
+        rf.push(format!("{x}={}", fref(ref1("signbit", N::conv(pool, x).to_f64()))));
     }
-    Some(format!("{}|tbl({})", res_arr(&r), tbl.join(";")))
+    Some(format!("{}|tbl({})|{}({})", res_arr(&r), tbl.join(";"), ref_tag::<N>(), rf.join(";")))
 }
 
 fn plain2<N: Elem>(op: &str, args: &[Arg]) -> Option<String> {
